@@ -30,6 +30,7 @@ CHECKS["C18"] = {
   "note": TB + "acronym table regenerated from acronym.rs each run; pluralizer crate is a parameter of the variant-table theorem; "
           "Unicode case mapping outside ASCII not modelled (tokens are ASCII alphanumerics by construction of the tokenizer).",
 }
+FIX_COMMITS.append("7e5290d fix: plans with an empty replacement can be loaded again")
 FIX_COMMITS.append("d23f7ff fix: undo renames directories back shallowest first")
 FIX_COMMITS.append("36a47de fix: rewrite only the header lines of reverse patches")
 FIX_COMMITS.append("be80595 fix: locate edited files under nested renamed directories when writing undo patches")
@@ -44,4 +45,21 @@ CHECKS["C05"] = {
   "technique": "Lean 4 proof (case analysis on rename(2) + induction over the rename list) + differential correspondence + CLI multiset oracle",
   "note": TB + "POSIX rename semantics per RModel.Model.Fs; case-insensitive filesystems (destination differing only by case) "
           "are not modelled: the same-file exception of the pre-flight is only exercised on a case-sensitive filesystem.",
+}
+CHECKS["C17"] = {
+  "text": "Theorems over all schemas and all values of a schema-driven model of serde derive (skip_serializing_if, default, "
+          "default = fn, implicit None of Option, rename/rename_all, unit enums, maps, tuples, nested structs, "
+          "deny_unknown_fields): load(save(v)) = v iff wherever a field of v is skipped on writing its missing-key rule returns "
+          "exactly that value; a decidable schema check (SchemaOk) is sufficient for every value and exact for the generated "
+          "Plan schema (C17_full_iff). The schema is regenerated from the #[serde] attributes of Plan, MatchHunk, Rename, "
+          "Stats, RenameKind, Style, HistoryEntry on every run and its verdict is re-decided by the kernel; with the repo fix "
+          "7e5290d the verdict is true and plan_roundtrip holds for every plan. Model compared with real serde_json on "
+          "generated Plan/HistoryEntry values built field by field; CLI: plan -> apply <saved file> vs rename -y, undo/redo "
+          "of the stored copy.",
+  "design_ref": "DESIGN.md section 4, C17",
+  "technique": "Lean 4 proof (mutual structural induction over a nested schema type) + generated schema + differential correspondence with serde_json + CLI save/load oracle",
+  "note": TB + "serde_json string escaping/number formatting (documents compared after decoding); serde derive semantics for the "
+          "attribute kinds that occur (any other attribute makes the translator fail loudly); non-UTF-8 paths are refused by the "
+          "serialiser (guard clause, probed on the CLI); HashMap key order ignored; 'reloaded plan => same apply effect' is "
+          "congruence plus the CLI tree comparison.",
 }
